@@ -1446,6 +1446,7 @@ func stCheck(c *core.Ctx, ops string, hseed int64, meta string) core.Obs {
 		c.Fail("harness", fmt.Sprintf("%d ops but %d results", len(lops), len(im)), "store.history", p, o)
 		return o
 	}
+	lastBlob := map[string][2]string{}
 	written := map[string]map[string]bool{} // token -> digests written through it
 	firedOverwrite := false
 	chainSets := map[string][]string{} // live token -> digests of the successful SetDeviceCertChain calls, in order
@@ -1468,7 +1469,19 @@ func stCheck(c *core.Ctx, ops string, hseed int64, meta string) core.Obs {
 				tokState = "live"
 			}
 		}
+		// a token the store issued and nobody invalidated must keep working, also after every kind of restart
+		if (w[0] == "set" || w[0] == "get" || w[0] == "inval") && tokState == "live" && res == "inv" {
+			c.Fail("live-token-refused", fmt.Sprintf("op %d %s -> %s: the store issued this token and it was never invalidated", i, lop, res), "store.history", p, o)
+		}
 		switch w[0] {
+		case "setblob":
+			if res == "ok" && len(w) >= 4 {
+				lastBlob[w[1]] = [2]string{strings.TrimPrefix(w[2], "b:"), w[3]}
+			}
+		case "getblob":
+			if lb, ok := lastBlob[w[1]]; ok && strings.HasPrefix(res, "v:") && res[2:] != lb[0] {
+				c.Fail("blob-not-the-latest", fmt.Sprintf("op %d %s returned %s, the last registration for this GUID stored %s", i, lop, res, lb[0]), "store.history", p, o)
+			}
 		case "set":
 			if tokState == "bad" && res == "ok" {
 				c.Fail("bad-token-granted", fmt.Sprintf("op %d %s -> %s", i, lop, res), "store.history", p, o)
